@@ -115,6 +115,10 @@ def r3(ctx):
         ctx.check(len(cs) == 1, "confirm:%s:site" % name, "%s confirms an accepted response that asks for it" % name, bd.where(cs[0].idx) if cs else bd.where(line=bd.line), bad_detail="%s accepts a solicited response but never calls confirm_solicited: a response with CON set is accepted and never confirmed" % name)
         for c in cs:
             ctx.require_guards(bd, c.idx, [("response.header.control.con", con), ("seq matches", SEQ), ("source matches", SRC), ("no IIN2 rejection", IIN)], "confirm:%s" % name, "confirm_solicited")
+            if accept == "process":
+                # a READ fragment is accepted only when its objects parse (R2): it is confirmed only then -- confirming a
+                # fragment that is then rejected tells the outstation to release events the handler never saw
+                ctx.require_guards(bd, c.idx, [("objects parsed (?)", g_is(lambda x: mentions_field(x, "objects") and RESP(x), "Continue"))], "confirm:%s:accepted" % name, "confirm_solicited")
             e = sym.call_expr(c.term)
             ctx.check(e[2][3] in (("capture", "seq"), ("param", "seq")), "confirm:%s:seq" % name, "confirms with the matched sequence number (%s)" % expr_str(e[2][3]), bd.where(c.idx), bad_detail="confirm_solicited(seq = %s)" % expr_str(e[2][3]))
             ctx.check(e[2][2] in (("capture", "destination"), ("param", "destination")), "confirm:%s:dest" % name, "confirm goes to the addressed outstation", bd.where(c.idx))
